@@ -66,8 +66,8 @@ type seqProfile struct {
 	prop        string
 	steps       [2]int
 	maxTx       int
-	txWeight    int // weight of transactional activity (0 = none)
-	ctlWeight   int // weight of control ops (gc, gctimer, bg, drain)
+	txWeight    int  // weight of transactional activity (0 = none)
+	ctlWeight   int  // weight of control ops (gc, gctimer, bg, drain)
 	gcEvery     bool // C09: a collector run after (almost) every step
 	late        bool // C13: keep using ended handles
 	reopen      int  // weight of reopen ops
